@@ -1631,6 +1631,9 @@ pub fn generate(rng: &mut Prng, property: &str, thorough: bool) -> (Config, Vec<
     let max_log_size = if rng.chance(1, 2) { Some(*rng.pick(&[64u64, 100, 200, 400, 1000, 4096])) } else { None };
     let bufwriter_capacity = if rng.chance(1, 2) { Some(*rng.pick(&[1u64, 7, 16, 64, 300])) } else { None };
     let exotic = rng.chance(1, 3);
+    // a few runs write values whose log record is far larger than any buffer or size limit
+    // (5 kB, 70 kB, 1.1 MB)
+    let big_on = rng.chance(1, 30);
     let len = rng.range(2, if thorough { 40 } else { 24 }) as usize;
     // swarm: which op kinds are enabled in this run
     let unlogged_on = rng.chance(1, 4);
@@ -1652,6 +1655,7 @@ pub fn generate(rng: &mut Prng, property: &str, thorough: bool) -> (Config, Vec<
             2 | 3 => { nn += 1; Op::CreateNodeProps((0..rng.range(0, 2)).map(|_| rng.below(3) as u8).collect(), props(rng, uniq)) }
             4 if exotic => { let n = rng.range(1, 2); nn += n as usize; Op::BatchCreate(rng.below(3) as u8, (0..n).map(|j| (0..rng.below(3)).map(|x| ((uniq + j + x) as f32).to_bits()).collect()).collect()) }
             5 if nn > 0 => Op::DeleteNode(rng.usize(nn)),
+            6 if nn > 0 && big_on => Op::SetNodeProp(rng.usize(nn), rng.below(3) as u8, SV::BigStr(*rng.pick(&[5_000u32, 70_000, 70_000, 1_100_000]), b'a' + (uniq % 26) as u8)),
             6 | 7 | 8 if nn > 0 => Op::SetNodeProp(rng.usize(nn), rng.below(3) as u8, gen_value(rng, uniq * 4, exotic)),
             9 if nn > 0 && unlogged_on => Op::RemoveNodeProp(rng.usize(nn), rng.below(3) as u8),
             10 if nn > 0 => Op::AddLabel(rng.usize(nn), rng.below(3) as u8),
